@@ -1,4 +1,5 @@
 import OW.Proofs.Storage
+import OW.Proofs.StorageExample
 /-!
 C13 — reservoir storage closes its water balance and respects its release rules.
 
@@ -434,5 +435,26 @@ theorem terminates_exists (t : Tables ℝ) (keep : Bool) (deltaT : ℝ) :
     linarith
   have h2 : (k:ℝ) ≤ 2 ^ k := by exact_mod_cast (Nat.lt_two_pow_self (n := k)).le
   exact terminates t keep fo fi k k deltaT h1 (by linarith) hfo hfi v0 ins
+
+/-! ### non-vacuity: the theorems instantiated on a concrete successful run
+(`OW/Proofs/StorageExample.lean`: two-knot table, one timestep of 1 s, inflow 1 m³/s into the empty storage) -/
+
+open OW.Proofs.StorageExample in
+/-- the run returns `.ok`, its water balance reads `1 − 0 = (1 − 0)·1 + (0 − 0)·1` -/
+example : Chain (fun v i o => o.volume - v = (i.2.2.1 - o.outflow) * 1 + (o.rainfallVolume - o.evaporationVolume) * 1)
+    0 [(0, 0, 1, 0)] [⟨1, 0, 0, 0, [⟨0, accEx, 1, 0, 1⟩]⟩] :=
+  storage_balance tEx true 2 1 1 0 _ _ (by norm_num) runEx
+
+open OW.Proofs.StorageExample in
+example : Chain (fun _ _ o => (o.trace.map (·.acc.sub)).sum = 1) 0 [(0, 0, 1, 0)] [⟨1, 0, 0, 0, [⟨0, accEx, 1, 0, 1⟩]⟩] :=
+  sub_steps_sum tEx 2 1 1 0 _ _ (by norm_num) runEx
+
+open OW.Proofs.StorageExample in
+example : run tEx true fuelOuter fuelInner 1 0 [(0, 0, 1, 0)] ≠ .error "fuel" :=
+  terminates_driver_fuel tEx true 1 (by norm_num) _ _
+
+/-- a panic of the code is an error of the model, not a default value: with an empty volume table the three reads at the
+top of `storageWaterBalance` fail -/
+example : mkTables ([] : List ℝ) [] [] [] [] = .error "index-out-of-range" := rfl
 
 end OW.Props.C13
